@@ -354,6 +354,15 @@ theorem performCU_dir {cfg : Cfg} {w w' : World} {t : Task} (hp : t.payload = .d
     simp only [hm, Option.map_some, Option.some.injEq] at h; subst h
     exact ⟨fun hne => mkdirAll_dirs hm _ hne (isPrefix_refl _), rfl⟩
 
+/-- a directory creation completes only where nothing or a directory was -/
+theorem performCU_dir_pre {cfg : Cfg} {w w' : World} {t : Task} (hp : t.payload = .dir)
+    (h : performCU cfg w t = some w') (hne : t.rel ≠ []) :
+    w.dst.get? t.rel = none ∨ w.dst.get? t.rel = some .dir := by
+  unfold performCU at h; simp only [hp] at h
+  cases hm : mkdirAll w.dst t.rel with
+  | none => simp [hm] at h
+  | some d => exact mkdirAll_pre hm t.rel hne (isPrefix_refl _)
+
 theorem performCU_symlink {cfg : Cfg} {w w' : World} {t : Task} {text : String}
     (hp : t.payload = .symlink text) (h : performCU cfg w t = some w') :
     w'.dst.get? t.rel = some (.symlink text) ∧ w'.linkMap = w.linkMap := by
